@@ -215,7 +215,7 @@ var c16Invocations = [][]string{
 	{"--list-all", "--json"}, {"--dry", "t", "short", "list-short", "inc:it"}, {"--summary", "t"}, {"t"}, {"--status", "t"}, {"--dry", "a(b", "x*"},
 }
 
-var c16TextInvocations = [][]string{{"--list-all", "--json"}, {"--dry", "t", "a(b"}, {"t"}}
+var c16TextInvocations = [][]string{{"--list-all", "--json"}, {"--dry", "t", "a(b"}, {"t"}, {"--dry", "a", "ab", "a-b", "aa", "x", "a:b"}}
 
 func c16RunDoc(dir string, files map[string]string, extraEnv []string) (crash string, detail string, site string) {
 	os.RemoveAll(dir)
